@@ -64,6 +64,12 @@ PROPS = {
                 trusted=[KERNEL, 'model evaluated inside Coq by vm_compute on generated cases_C07.v (exact rationals)', 'mathcomp 1.15 (ssreflect, algebra) for the matrix theorems; no axioms',
                          'harness/c07.py: exact dyadic conversion of the implementation matrices, dont-care band 1e-9 around the surface',
                          'modelled not verified: floating-point rounding inside numpy/LAPACK (Cholesky, inverse, einsum), the Khachiyan iteration (its output is checked: rescaled quadratic forms of the construction points), MLPRegressor scores (oracle bits)']),
+    'C08': dict(module='c08', pfile=['P_C08', 'P_C08_det'],
+                required=['C08_uniform', 'C08_accept', 'C08_filter', 'C08_sample', 'C08_accepted', 'C08_merge', 'C08_det'],
+                trusted=[KERNEL, 'model evaluated inside Coq by vm_compute on generated cases_C08.v', 'mathcomp for C08_det; no axioms',
+                         'harness/c08.py: recording generator proxy, member proxies, multiplicities recomputed with the real members',
+                         'NOT proved: the Lebesgue measure of an ellipsoid (no measure theory available): the constant pi^(d/2)/Gamma(d/2+1) and the calibration are checked numerically; uniformity of numpy multinomial / normal / shuffle / random is an oracle',
+                         'the statistical checks (occupancy, calibration) are support at a false-alarm level below 1e-9 each, not proof']),
 }
 
 
@@ -91,12 +97,24 @@ def main():
     if a.replay:
         return mod.replay(a.replay)
     run = Run(a.pid, a.tier, seed, level=cfg.get('level', 'proof'))
-    audit = dict(ok=False, theorems={}, problems=[], required=cfg['required'], pfile=cfg['pfile'], trusted_base=cfg['trusted'])
+    audit = dict(ok=False, theorems={}, problems=[], required=cfg['required'], pfile=' '.join(cfg['pfile']) if isinstance(cfg['pfile'], list) else cfg['pfile'], trusted_base=cfg['trusted'])
     try:
         ok, log = (True, '') if a.no_build else build()
         audit['build_ok'] = ok
         toks = forbidden_tokens()
-        res = audit_property_file(cfg['pfile'], cfg['required'])
+        pfiles = cfg['pfile'] if isinstance(cfg['pfile'], list) else [cfg['pfile']]
+        res = dict(theorems={}, problems=[], ok=True)
+        for pf in pfiles:
+            src = open(os.path.join(common.COQ, pf + '.v')).read() if os.path.exists(os.path.join(common.COQ, pf + '.v')) else ''
+            req = [r for r in cfg['required'] if ('Theorem %s ' % r) in src or ('Theorem %s:' % r) in src]
+            one = audit_property_file(pf, req)
+            res['theorems'].update(one['theorems'])
+            res['problems'] += one['problems']
+            res['ok'] = res['ok'] and one['ok']
+        missing = [r for r in cfg['required'] if r not in res['theorems']]
+        if missing:
+            res['problems'].append('required theorems not found in %s: %s' % (pfiles, missing))
+            res['ok'] = False
         audit.update(theorems=res['theorems'], problems=res['problems'] + toks, ok=res['ok'] and not toks and ok)
         run.cov['build_ok'] = ok
         run.cov['audit_problems'] = audit['problems']
@@ -105,7 +123,7 @@ def main():
         if not ok:
             proof_broken = 'Coq/OCaml build failed: ' + log[-1500:]
         elif audit['problems']:
-            proof_broken = 'audit of %s.v failed: %s' % (cfg['pfile'], '; '.join(audit['problems'])[:1500])
+            proof_broken = 'audit of %s failed: %s' % (cfg['pfile'], '; '.join(audit['problems'])[:1500])
         run.proof_broken = proof_broken
         mod.main(run, audit)
         if proof_broken and not any(v[2] for v in run.violations):
